@@ -104,8 +104,9 @@ def explore_chunk(args):
                 part.sets.setdefault("states", set()).update(ex.fingerprints)
             okey = repr(ex.obs)
             sample = None
-            if okey not in obs_seen and len(obs_seen) < 2:
-                sample = {"harness": label, "schedule": [p.choice for p in ex.points], "status": ex.status, "observation": ex.obs}
+            if (okey not in obs_seen and len(obs_seen) < 2) or (n < 40 and (pre or tim) and n % 13 == 0):
+                sample = {"harness": label, "schedule": [p.choice for p in ex.points], "status": ex.status, "observation": ex.obs,
+                          "preemptions": pre, "timer_deviations": tim}
             obs_seen.add(okey)
             part.case(nontrivial_key=(label, tuple(p.choice for p in ex.points)) if (pre or tim or len(ex.points) > 0) else None,
                       cls="%s|%s" % (ex.status, okey[:160]), sample=sample, leg=label)
